@@ -1259,6 +1259,53 @@ def run_ms(ctx, R, cases):
         hl.append("rdall %s %s" % (ALLSAVE, join_file(units).hex())); meta.append((ci, units))
     hres = R.harness(hl, lambda i: cases[meta[i][0]])
     mres = R.model(hl)
+    # next_marker: garbage bytes, FF fill bytes and stuffed FF 00 pairs in front of header markers.  The header must read as
+    # without them, and next_marker must report (JWRN_EXTRANEOUS_DATA) exactly the discarded bytes and the marker it found.
+    jl, jm, jmeta = [], [], []
+    for ci, units in meta:
+        c = cases[ci]
+        rng = SplitMix64(c["eseed"] ^ 0x6a756e6b)
+        nsos = next(i for i, u in enumerate(units) if u[0] == "seg" and u[1] == 0xDA)
+        hsegs = [u for u in units[:nsos + 1]]
+        clean = b"\xff\xd8" + b"".join(seg_bytes(u[1], u[2]) for u in hsegs)
+        junky, exp = b"\xff\xd8", []
+        for u in hsegs:
+            d = 0
+            if rng.chance(1, 2):
+                for _ in range(rng.range(1, 5)):
+                    t = rng.below(4)
+                    if t == 0:
+                        junky += bytes([rng.range(1, 254)]); d += 1
+                    elif t == 1:
+                        junky += b"\xff\x00"; d += 2
+                    elif t == 2:
+                        junky += b"\xff" * rng.range(2, 4) + b"\x00"; d += 2
+                    else:
+                        junky += b"\x00"; d += 1
+            if rng.chance(1, 3):
+                junky += b"\xff" * rng.range(1, 5)          # fill bytes: legal, not counted
+            if d:
+                exp.append("%d:%d" % (d, u[1]))
+            junky += seg_bytes(u[1], u[2])
+        jl.append("rdx %s %s" % (ALLSAVE, clean.hex())); jm.append("-"); jmeta.append((ci, "clean", None))
+        jl.append("rdx %s %s" % (ALLSAVE, junky.hex())); jm.append("nmscan " + junky.hex()); jmeta.append((ci, "junk", exp))
+    jres = R.harness(jl, lambda i: cases[jmeta[i][0]])
+    jmod = R.model(jm)
+    last_clean = None
+    for (ci, what, exp), h, m in zip(jmeta, jres, jmod):
+        if what == "clean":
+            last_clean = h.split(" || x")[0]
+            continue
+        if not (last_clean or "").startswith("hdr"):
+            continue                  # the edited marker sequence is refused anyway (second SOFn, ...): nothing to compare
+        line, x = (h.split(" || x") + [""])[:2]
+        got = x.split()
+        if line != last_clean or got != exp:
+            ctx.violation("header with garbage / fill bytes / stuffed zeros between markers: %s" % (
+                "header differs from the clean stream's" if line != last_clean else "next_marker reported discarded:marker %s, expected %s" % (got, exp)),
+                {"case": cases[ci], "expected": exp, "impl": h[-300:]}, signature="next-marker-scan")
+        R.corr("next-marker", "discarded bytes and marker found", m, "x" + "".join(" " + g for g in got), cases[ci])
+        ctx.count("ms-junk-%s" % ("some" if exp else "fill-only"), 1, ("junk", tuple(exp)))
     for (ci, units), h, m in zip(meta, hres, mres):
         c = cases[ci]
         failed = False
